@@ -113,6 +113,7 @@ type Env struct {
 	hasHypQ *bool
 	fnPos   token.Pos
 	szMaps  *map[string]Term
+	instPath string // instantiation terms of the enclosing instantiated quantifiers (names nested skolems)
 }
 
 func (e *Env) with(vars map[string]TV) *Env {
@@ -521,6 +522,18 @@ func (e *Env) call(x *Expr) TV {
 		}
 	case "alloc":
 		return TV{e.st.Alloc(e.x), nil}
+	case "nonnil":
+		a := e.Tr(x.Args[0])
+		return TV{Ite(Eq(a.T, Term{"bytes_nil", SStr}), Term{"str_empty", SStr}, a.T), a.Ty}
+	case "str_drop", "drop":
+		a := e.Tr(x.Args[0])
+		n := e.Tr(x.Args[1])
+		t := mk(SStr, "(str_drop %s %s)", a.T, n.T)
+		e.fact(mk(SBool, "(= (str_len %s) (- (str_len %s) %s))", t, a.T, n.T))
+		return TV{t, a.Ty}
+	case "mapof":
+		m := e.Tr(x.Args[0])
+		return TV{e.mapValue(m), nil}
 	case "deref":
 		a := e.Tr(x.Args[0])
 		pt, ok := types.Unalias(a.Ty).Underlying().(*types.Pointer)
@@ -695,7 +708,7 @@ func mentionsVar(x *Expr, v string) bool {
 	return false
 }
 
-const maxInstances = 400
+const maxInstances = 1500
 
 func (e *Env) quant(x *Expr) TV {
 	universal := x.Name == "forall"
@@ -708,11 +721,7 @@ func (e *Env) quant(x *Expr) TV {
 		}
 		for _, q := range x.Vars {
 			pt := e.x.parseSpecType(q.Type, e.fnPos)
-			inst := 0
-			if e.inst != nil {
-				inst = *e.inst
-			}
-			name := fmt.Sprintf("sk_%s_%d_%s_%d", e.skTag, x.Pos, q.Name, inst)
+			name := fmt.Sprintf("sk_%s_%d_%s_%s", e.skTag, x.Pos, q.Name, shortHash(e.instPath))
 			t := e.sink.FreshNamed(name, pt.sort)
 			ty := pt.ty
 			if isInteger2(ty) {
@@ -733,6 +742,7 @@ func (e *Env) quant(x *Expr) TV {
 	}
 	var sets []cset
 	total := 1
+	nested := containsQuant(body, e.x.db)
 	for _, q := range x.Vars {
 		pt := e.x.parseSpecType(q.Type, e.fnPos)
 		u := &quantUse{offsets: map[int]bool{}}
@@ -764,6 +774,11 @@ func (e *Env) quant(x *Expr) TV {
 		}
 		var ts []string
 		for c := range cs {
+			// hypotheses with nested quantifiers create skolems when instantiated; they are only
+			// instantiated at terms that are not themselves such skolems (generation limit)
+			if nested && strings.Contains(c, "sk_h") {
+				continue
+			}
 			ts = append(ts, c)
 		}
 		sort.Strings(ts)
@@ -816,18 +831,30 @@ func (e *Env) quant(x *Expr) TV {
 		for k, v := range e.vars {
 			vars[k] = v
 		}
+		nsk := 0
 		for i, s := range sets {
 			ty := s.pt.ty
 			if isInteger2(ty) {
 				ty = nil
 			}
 			vars[s.q.Name] = TV{Term{s.terms[idxs[i]], s.pt.sort}, ty}
+			if strings.Contains(s.terms[idxs[i]], "sk_h") {
+				nsk++
+			}
 		}
-		n := e.with(vars)
-		if e.inst != nil {
-			*e.inst++
+		// tuples of a multi-variable hypothesis use at most one hypothesis-skolem (generation limit)
+		if nsk <= 1 || len(sets) == 1 {
+			n := e.with(vars)
+			if e.inst != nil {
+				*e.inst++
+			}
+			ip := e.instPath
+			for i, s := range sets {
+				ip += "|" + s.terms[idxs[i]]
+			}
+			n.instPath = ip
+			parts = append(parts, n.Bool(body))
 		}
-		parts = append(parts, n.Bool(body))
 		// next tuple
 		k := len(sets) - 1
 		for k >= 0 {
@@ -870,4 +897,16 @@ func lookupField(t types.Type, pkg *types.Package, name string) (types.Object, [
 		obj, index, ind = types.LookupFieldOrMethod(t, true, n.Obj().Pkg(), name)
 	}
 	return obj, index, ind
+}
+
+func shortHash(s string) string {
+	if s == "" {
+		return "0"
+	}
+	var h uint64 = 1469598103934665603
+	for i := 0; i < len(s); i++ {
+		h ^= uint64(s[i])
+		h *= 1099511628211
+	}
+	return fmt.Sprintf("%x", h&0xffffffffff)
 }
